@@ -753,6 +753,92 @@ func c06CheckForge(c c06ForgeCase) engine.Result {
 	return res
 }
 
+// ---- scenario "nested-readers" -------------------------------------------------------------------------
+
+type c06NestCase struct {
+	Outer int `json:"outer_table"`
+	Inner int `json:"inner_table"`
+	Chunk int `json:"chunk"`
+	First int `json:"first_packet_payload"`
+}
+
+type c06Chunks struct {
+	data []byte
+	k    int
+}
+
+func (c *c06Chunks) Read(p []byte) (int, error) {
+	if len(c.data) == 0 {
+		return 0, io.EOF
+	}
+	n := min(c.k, len(p), len(c.data))
+	copy(p, c.data[:n])
+	c.data = c.data[n:]
+	return n, nil
+}
+
+func c06NestStream(sec *ref.PMTSection, pid, first int) []byte {
+	payload := append(ref.Pointer(0), ref.PMTBytes(*sec, false)...)
+	var ts []byte
+	f := ref.CarryPayload(0x1FFF, false, 0, ref.PadPayload(nil, 184))
+	ts = append(ts, f[:]...)
+	rest := payload
+	for i := 0; len(rest) > 0; i++ {
+		n := 184
+		if i == 0 {
+			n = first
+		}
+		n = min(n, len(rest))
+		chunk := rest[:n]
+		if i > 0 {
+			chunk = ref.PadPayload(chunk, 184)
+		}
+		p := ref.CarryPayload(pid, i == 0, byte(7+i), chunk)
+		ts = append(ts, p[:]...)
+		rest = rest[n:]
+	}
+	return ts
+}
+
+// c06CheckNest: while ReadPMT is waiting in a Read of its source, the source completes a ReadPMT of
+// its own (other stream, other PID, other table) at every Read position; both must return their table.
+func c06CheckNest(c c06NestCase) engine.Result {
+	var res engine.Result
+	so, si := c06ReuseSections[c.Outer], c06ReuseSections[c.Inner]
+	outer, inner := c06NestStream(&so, 0x64, c.First), c06NestStream(&si, 0x65, 50)
+	wo, wi := c06MakeWant(&so), c06MakeWant(&si)
+	probe := &nestReader{inner: &c06Chunks{outer, c.Chunk}, at: -1}
+	if _, err := psi.ReadPMT(probe, 0x64); err != nil {
+		res.Failf("ReadPMT|nested|plain-read-fails", "%v", err)
+		return res
+	}
+	for at := 1; at <= probe.calls; at++ {
+		var ipmt psi.PMT
+		var ierr error
+		rd := &nestReader{inner: &c06Chunks{outer, c.Chunk}, at: at, do: func() {
+			ipmt, ierr = psi.ReadPMT(&c06Chunks{inner, 100}, 0x65)
+		}}
+		var pmt psi.PMT
+		var err error
+		res.Evals++
+		if engine.Guard(&res, "ReadPMT|nested", func() { pmt, err = psi.ReadPMT(rd, 0x64) }) {
+			return res
+		}
+		if err != nil || pmt == nil || ierr != nil || ipmt == nil {
+			res.Failf("ReadPMT|nested-inside-a-ReadPMT|error", "another ReadPMT ran during Read call #%d (pieces of %d bytes): outer err=%v inner err=%v", at, c.Chunk, err, ierr)
+			return res
+		}
+		c06Verify(&res, "ReadPMT|another-ReadPMT-ran-inside-a-Read|", pmt, wo, true)
+		c06Verify(&res, "ReadPMT|ran-inside-a-Read-of-another-ReadPMT|", ipmt, wi, true)
+		if len(res.Fail) > 6 {
+			break
+		}
+	}
+	res.Nontrivial = 1
+	res.Outcome(c.Outer, c.Inner, c.Chunk, c.First)
+	return res
+}
+
 // c06Norm makes nil and empty slices compare equal.
 func c06Norm(s ref.PMTSection) ref.PMTSection {
 	if len(s.ProgDescs) == 0 {
@@ -868,7 +954,7 @@ func c06FragBody(ch *engine.Chooser) engine.Result {
 	w := c06MakeWant(&sec)
 	stream, caps := c06Stream(&c, payload, f, nil)
 	keep := append([]byte(nil), stream...)
-	sr := &ref.ScriptedReader{Data: stream, Ch: ch, Align: 188}
+	sr := &ref.ScriptedReader{Data: stream, Ch: ch, Align: 188, Empties: true}
 	c06ReadOne(&res, sr, c.pid, c06LeadNames[lead], &c, spans, caps, len(payload), w, true, f)
 	if sr.ShortReads > 0 {
 		res.Event("reader cut at least one packet (short read)")
@@ -1060,12 +1146,12 @@ func init() {
 			},
 			&engine.Tree{
 				Name: "reader-fragmentation",
-				Rule: "choice tree: 3 sections (1 stream; 2 streams with descriptors; 250-byte section over two packets) x lead-in {pointer 0, pointer 5, foreign section first} x first-packet payload size {184,4,5,100,183,1,3} x foreign-PID packets x last-packet style x every Read answer of the scripted reader (everything / 1 byte / half / to the packet boundary / boundary+-1, EOF with or without data); oracle as in 'carriers'; non-trivial = executions with at least one non-default choice",
+				Rule: "choice tree: 3 sections (1 stream; 2 streams with descriptors; 250-byte section over two packets) x lead-in {pointer 0, pointer 5, foreign section first} x first-packet payload size {184,4,5,100,183,1,3} x foreign-PID packets x last-packet style x every Read answer (optionally preceded by an empty (0,nil) answer, at most two in a row) of the scripted reader (everything / 1 byte / half / to the packet boundary / boundary+-1, EOF with or without data); oracle as in 'carriers'; non-trivial = executions with at least one non-default choice",
 				Bound: func(r *engine.Run) int {
 					if r.Thorough() {
-						return 6
+						return 8
 					}
-					return 4
+					return 6
 				},
 				Body: c06FragBody,
 			},
@@ -1115,6 +1201,22 @@ func init() {
 					}
 				},
 				Check: c06CheckForge, Batch: 64,
+			},
+			&engine.Enum[c06NestCase]{
+				Name: "nested-readers",
+				Rule: "every ordered pair (outer, inner) of 4 tables x outer reader pieces of {1,100,188,189,400} bytes x first-packet payload {184,20}: ReadPMT over a null packet + the outer table on PID 0x64; at EVERY Read call position the source first completes another ReadPMT (PID 0x65, inner table, two packets); both results must be exactly their own table (finds packet, accumulator or section buffers shared between calls)",
+				Gen: func(r *engine.Run, emit func(c06NestCase)) {
+					for o := range c06ReuseSections {
+						for i := range c06ReuseSections {
+							for _, ch := range []int{1, 100, 188, 189, 400} {
+								for _, f := range []int{184, 20} {
+									emit(c06NestCase{o, i, ch, f})
+								}
+							}
+						}
+					}
+				},
+				Check: c06CheckNest, Batch: 4,
 			},
 			&engine.Enum[c06HdrCase]{
 				Name: "table-header-codec",
